@@ -55,6 +55,135 @@ enum Summary {
     BothExisting,
     BothUnknown,
     Neither,
+    /// a caller-supplied summary_artifact_id of a given SHAPE (no text)
+    ArtShape(IdShape),
+    /// the same next to a summary text
+    BothShape(IdShape),
+}
+/// shapes of a caller-supplied summary_artifact_id.  `<blob>` = the name of a blob that exists in the store (when
+/// the store holds none: a 64-hex name nothing is stored under); `sub`, `sub/inner`, `../outside.txt`,
+/// `<ws>/outside.txt`, `<blob>.tmp` exist after Op::StoreFx(Furnish), otherwise they name nothing.
+#[derive(Clone, Copy, Debug, PartialEq, Eq)]
+enum IdShape {
+    Empty,             // ""  (joins to "<blobs>/")
+    Dot,               // "."
+    DotDot,            // ".."
+    DotSlash,          // "./"
+    Space,             // " "
+    Blob,              // <blob>
+    BlobSlash,         // <blob>/
+    BlobDot,           // <blob>/.
+    BlobDotDot,        // <blob>/..
+    DotSlashBlob,      // ./<blob>
+    DotsBlob,          // ./ x 20 <blob>
+    LongDotsBlob,      // ./ x 2500 <blob>: longer than PATH_MAX
+    Edge4095,          // ./////<blob>, joined path 4095 bytes (the longest stat accepts)
+    Edge4096,          // ... 4096 bytes (ENAMETOOLONG)
+    BlobTmp,           // <blob>.tmp (what an interrupted write_blob_atomic leaves)
+    BlobNul,           // <blob>\0
+    NulInside,         // a\0b
+    BlobUpper,         // <BLOB> in upper case
+    BlobSpace,         // <blob> followed by a blank
+    Unknown,           // deadbeef
+    UnknownHex64,      // 64 hex digits nothing is stored under
+    Long255,           // 255 x 'a' (the longest name)
+    Long256,           // 256 x 'a' (ENAMETOOLONG)
+    Long5000,          // 5000 x 'a'
+    DirName,           // sub
+    DirSlash,          // sub/
+    NestedFile,        // sub/inner
+    NestedMissing,     // sub/missing
+    SubDotDotBlob,     // sub/../<blob>
+    MissingDotDotBlob, // nosuch/../<blob>  (ENOENT although the lexical path names the blob)
+    AB,                // a/b
+    Backslash,         // sub\inner (one name on Unix)
+    ParentBlobsDir,    // ../blobs
+    ParentBlobsBlob,   // ../blobs/<blob>
+    ParentFile,        // ../outside.txt  (a regular file next to blobs/)
+    ParentMissing,     // ../x
+    UpToLog,           // ../../../../data/events.jsonl (the event log)
+    AbsBlob,           // <abs blobs>/<blob>
+    AbsBlobsDir,       // <abs blobs>
+    AbsBlobsDirSlash,  // <abs blobs>/
+    AbsOutside,        // <abs ws>/outside.txt
+    AbsMissing,        // /nonexistent-rv-c10/x
+    AbsRoot,           // /
+}
+const SHAPES_ALL: [IdShape; 43] = [
+    IdShape::Empty, IdShape::Dot, IdShape::DotDot, IdShape::DotSlash, IdShape::Space, IdShape::Blob, IdShape::BlobSlash, IdShape::BlobDot, IdShape::BlobDotDot,
+    IdShape::DotSlashBlob, IdShape::DotsBlob, IdShape::LongDotsBlob, IdShape::Edge4095, IdShape::Edge4096, IdShape::BlobTmp, IdShape::BlobNul, IdShape::NulInside,
+    IdShape::BlobUpper, IdShape::BlobSpace, IdShape::Unknown, IdShape::UnknownHex64, IdShape::Long255, IdShape::Long256, IdShape::Long5000, IdShape::DirName,
+    IdShape::DirSlash, IdShape::NestedFile, IdShape::NestedMissing, IdShape::SubDotDotBlob, IdShape::MissingDotDotBlob, IdShape::AB, IdShape::Backslash,
+    IdShape::ParentBlobsDir, IdShape::ParentBlobsBlob, IdShape::ParentFile, IdShape::ParentMissing, IdShape::UpToLog, IdShape::AbsBlob, IdShape::AbsBlobsDir,
+    IdShape::AbsBlobsDirSlash, IdShape::AbsOutside, IdShape::AbsMissing, IdShape::AbsRoot,
+];
+const SHAPES_CORE: [IdShape; 20] = [
+    IdShape::Empty, IdShape::Dot, IdShape::DotDot, IdShape::DotSlash, IdShape::Blob, IdShape::BlobSlash, IdShape::DotSlashBlob, IdShape::BlobTmp, IdShape::BlobNul,
+    IdShape::Unknown, IdShape::Long256, IdShape::DirName, IdShape::DirSlash, IdShape::NestedFile, IdShape::AB, IdShape::ParentBlobsDir, IdShape::ParentFile,
+    IdShape::AbsBlob, IdShape::AbsBlobsDir, IdShape::AbsRoot,
+];
+const HEX64_UNKNOWN: &str = "0123456789abcdef0123456789abcdef0123456789abcdef0123456789abcdef";
+fn id_text(shape: IdShape, blob: &str, blobs_abs: &str, ws_abs: &str) -> String {
+    let pad = |total: usize| -> String {
+        // "." + '/' * k + blob with blobs_abs + "/" + id exactly `total` bytes long
+        let id_len = total.saturating_sub(blobs_abs.len() + 1);
+        let k = id_len.saturating_sub(1 + blob.len()).max(1);
+        format!(".{}{}", "/".repeat(k), blob)
+    };
+    match shape {
+        IdShape::Empty => String::new(),
+        IdShape::Dot => ".".into(),
+        IdShape::DotDot => "..".into(),
+        IdShape::DotSlash => "./".into(),
+        IdShape::Space => " ".into(),
+        IdShape::Blob => blob.into(),
+        IdShape::BlobSlash => format!("{blob}/"),
+        IdShape::BlobDot => format!("{blob}/."),
+        IdShape::BlobDotDot => format!("{blob}/.."),
+        IdShape::DotSlashBlob => format!("./{blob}"),
+        IdShape::DotsBlob => format!("{}{blob}", "./".repeat(20)),
+        IdShape::LongDotsBlob => format!("{}{blob}", "./".repeat(2500)),
+        IdShape::Edge4095 => pad(4095),
+        IdShape::Edge4096 => pad(4096),
+        IdShape::BlobTmp => format!("{blob}.tmp"),
+        IdShape::BlobNul => format!("{blob}\0"),
+        IdShape::NulInside => "a\0b".into(),
+        IdShape::BlobUpper => blob.to_uppercase(),
+        IdShape::BlobSpace => format!("{blob} "),
+        IdShape::Unknown => "deadbeef".into(),
+        IdShape::UnknownHex64 => "fedcba9876543210fedcba9876543210fedcba9876543210fedcba9876543210".into(),
+        IdShape::Long255 => "a".repeat(255),
+        IdShape::Long256 => "a".repeat(256),
+        IdShape::Long5000 => "a".repeat(5000),
+        IdShape::DirName => "sub".into(),
+        IdShape::DirSlash => "sub/".into(),
+        IdShape::NestedFile => "sub/inner".into(),
+        IdShape::NestedMissing => "sub/missing".into(),
+        IdShape::SubDotDotBlob => format!("sub/../{blob}"),
+        IdShape::MissingDotDotBlob => format!("nosuch/../{blob}"),
+        IdShape::AB => "a/b".into(),
+        IdShape::Backslash => "sub\\inner".into(),
+        IdShape::ParentBlobsDir => "../blobs".into(),
+        IdShape::ParentBlobsBlob => format!("../blobs/{blob}"),
+        IdShape::ParentFile => "../outside.txt".into(),
+        IdShape::ParentMissing => "../x".into(),
+        IdShape::UpToLog => "../../../../data/events.jsonl".into(),
+        IdShape::AbsBlob => format!("{blobs_abs}/{blob}"),
+        IdShape::AbsBlobsDir => blobs_abs.into(),
+        IdShape::AbsBlobsDirSlash => format!("{blobs_abs}/"),
+        IdShape::AbsOutside => format!("{ws_abs}/outside.txt"),
+        IdShape::AbsMissing => "/nonexistent-rv-c10/x".into(),
+        IdShape::AbsRoot => "/".into(),
+    }
+}
+/// states of the workspace artifact store the harness sets up itself (an earlier handoff / compaction checkpoint
+/// populate it through ripd)
+#[derive(Clone, Copy, Debug, PartialEq, Eq)]
+enum StoreFx {
+    EmptyBlobsDir, // .rip/artifacts/blobs exists and is empty
+    Compiled,      // a context bundle as the context compiler stores it (rip.context_bundle.v1, 64-hex name)
+    Furnish,       // blobs/sub/, blobs/sub/inner, <blob>.tmp, .rip/artifacts/outside.txt, <ws>/outside.txt
+    BlobsIsFile,   // .rip/artifacts/blobs is a regular file (only when it does not exist yet)
 }
 /// the text of a summary given as markdown (only read when the summary class carries markdown)
 #[derive(Clone, Copy, Debug, PartialEq, Eq)]
@@ -105,6 +234,7 @@ enum Op {
     Checkpoint { th: usize },
     Fault { th: usize, x: Fault },
     Restart,
+    StoreFx(StoreFx),
     /// stale: roll the parent's sidecar back by k lines before the call (the cache is removed afterwards)
     /// bundle_fail: the artifact store is made unwritable for the duration of the call
     Call { kind: Kind, th: usize, sel: Sel, stale: Option<usize>, bundle_fail: bool, md: Md, http: bool },
@@ -170,6 +300,56 @@ fn blobs_dir(env: &Env) -> std::path::PathBuf {
     env.ws.join(".rip").join("artifacts").join("blobs")
 }
 
+/// name of a blob that exists in the store: the latest the harness knows of, else any regular file in blobs/ with a
+/// plain name, else a 64-hex name nothing is stored under.  Creates nothing.
+fn good_blob(env: &Env, known: &[String]) -> String {
+    if let Some(x) = known.iter().rev().find(|x| blobs_dir(env).join(x).is_file()) {
+        return x.clone();
+    }
+    let mut names: Vec<String> = std::fs::read_dir(blobs_dir(env)).map(|rd| rd.flatten().filter(|e| e.path().is_file()).filter_map(|e| e.file_name().into_string().ok()).filter(|n| !n.ends_with(".tmp")).collect()).unwrap_or_default();
+    names.sort();
+    names.pop().unwrap_or_else(|| HEX64_UNKNOWN.to_string())
+}
+
+/// listing of the real file system for Model/ArtGuard.v: the ancestors of the scratch root (directories), everything
+/// below <root>/ws, the entries of <root>/data one level deep.  (absolute components, None = directory, Some(len) = file)
+fn fs_listing(env: &Env) -> Vec<(Vec<Vec<u8>>, Option<u64>)> {
+    use std::os::unix::ffi::OsStrExt;
+    let comps = |p: &std::path::Path| -> Vec<Vec<u8>> { p.components().filter_map(|c| if let std::path::Component::Normal(n) = c { Some(n.as_bytes().to_vec()) } else { None }).collect() };
+    let mut out = vec![];
+    let mut anc: Vec<&std::path::Path> = env.root.ancestors().collect();
+    anc.reverse();
+    for a in anc {
+        if a.parent().is_some() {
+            out.push((comps(a), None));
+        }
+    }
+    fn walk(dir: &std::path::Path, depth: usize, out: &mut Vec<(Vec<Vec<u8>>, Option<u64>)>, comps: &dyn Fn(&std::path::Path) -> Vec<Vec<u8>>) {
+        let mut entries: Vec<std::path::PathBuf> = std::fs::read_dir(dir).map(|rd| rd.flatten().map(|e| e.path()).collect()).unwrap_or_default();
+        entries.sort();
+        for p in entries {
+            match std::fs::symlink_metadata(&p) {
+                Ok(m) if m.is_dir() => {
+                    out.push((comps(&p), None));
+                    if depth > 0 {
+                        walk(&p, depth - 1, out, comps);
+                    }
+                }
+                Ok(m) if m.is_file() => out.push((comps(&p), Some(m.len()))),
+                _ => {}
+            }
+        }
+    }
+    out.push((comps(&env.data_dir), None));
+    walk(&env.data_dir, 0, &mut out, &comps);
+    out.push((comps(&env.ws), None));
+    walk(&env.ws, 12, &mut out, &comps);
+    out
+}
+fn coq_bytes(b: &[u8]) -> String {
+    coq_list_n(&b.iter().map(|x| *x as u64).collect::<Vec<_>>())
+}
+
 fn err_code(e: &str) -> u64 {
     if let Some(st) = e.strip_prefix("http status ") {
         // a call made through POST /threads/{id}/branch|handoff: only the status is visible
@@ -198,6 +378,7 @@ fn err_code(e: &str) -> u64 {
 struct Outcome {
     violations: Vec<(String, String)>,
     terms: Vec<(String, serde_json::Value)>, // coq case + replayable description
+    art_terms: Vec<(String, serde_json::Value)>, // Model/ArtGuard.v cases (the guard over the file-system listing)
     oracle_checks: u64,
     calls: u64,
     ok_calls: u64,
@@ -335,6 +516,34 @@ fn run_case(ops: &[Op], check_art: bool) -> Outcome {
                 apply_fault(&env, &tid(*th), *x);
             }
             Op::Restart => env.restart(),
+            Op::StoreFx(x) => {
+                let blobs = blobs_dir(&env);
+                match x {
+                    StoreFx::EmptyBlobsDir => {
+                        std::fs::create_dir_all(&blobs).ok();
+                    }
+                    StoreFx::Compiled => {
+                        std::fs::create_dir_all(&blobs).ok();
+                        let id = format!("c0{:062x}", hs.len());
+                        std::fs::write(blobs.join(&id), b"{\"schema\":\"rip.context_bundle.v1\",\"items\":[]}").ok();
+                        known_artifacts.push(id);
+                    }
+                    StoreFx::Furnish => {
+                        std::fs::create_dir_all(blobs.join("sub")).ok();
+                        std::fs::write(blobs.join("sub").join("inner"), b"inner file").ok();
+                        let b = good_blob(&env, &known_artifacts);
+                        std::fs::write(blobs.join(format!("{b}.tmp")), b"{\"half\":").ok();
+                        std::fs::write(env.ws.join(".rip").join("artifacts").join("outside.txt"), b"not a blob").ok();
+                        std::fs::write(env.ws.join("outside.txt"), b"a workspace file").ok();
+                    }
+                    StoreFx::BlobsIsFile => {
+                        if !blobs.exists() {
+                            std::fs::create_dir_all(env.ws.join(".rip").join("artifacts")).ok();
+                            std::fs::write(&blobs, b"not a directory").ok();
+                        }
+                    }
+                }
+            }
             Op::Call { kind, th, sel, stale, bundle_fail, md, http } => {
                 do_call(&mut env, &hs, &before, *kind, *th, *sel, *stale, *bundle_fail, *md, *http, check_art, &mut known_artifacts, &mut out, ops);
             }
@@ -407,11 +616,20 @@ fn do_call(env: &mut Env, hs: &[Hdr], before: &[u8], kind: Kind, th: usize, sel:
                 Summary::BothExisting => (Some(md_text(mdv)), Some(existing())),
                 Summary::BothUnknown => (Some(md_text(mdv)), Some("artifact-that-does-not-exist".into())),
                 Summary::Neither => (None, None),
+                Summary::ArtShape(sh) | Summary::BothShape(sh) => {
+                    let blob = good_blob(env, known_artifacts);
+                    let id = id_text(sh, &blob, &blobs_dir(env).to_string_lossy(), &env.ws.to_string_lossy());
+                    (if matches!(s, Summary::BothShape(_)) { Some(md_text(mdv)) } else { None }, Some(id))
+                }
             }
         }
     };
+    let shaped = matches!(kind, Kind::Handoff(Summary::ArtShape(_) | Summary::BothShape(_)));
     // the unwritable store is only meaningful when ripd has to write the bundle itself
-    let bundle_fail = bundle_fail && art.is_none() && md.is_some();
+    let inject_fail = bundle_fail && art.is_none() && md.is_some();
+    // .rip/artifacts/blobs is a regular file (StoreFx::BlobsIsFile): ripd cannot write a bundle either
+    let store_broken = blobs_dir(env).exists() && !blobs_dir(env).is_dir();
+    let bundle_fail = inject_fail || (store_broken && art.is_none() && md.is_some());
     let art_exists = art.as_ref().map(|x| blobs_dir(env).join(x).is_file()).unwrap_or(false);
 
     // ---- environment faults
@@ -425,13 +643,29 @@ fn do_call(env: &mut Env, hs: &[Hdr], before: &[u8], kind: Kind, th: usize, sel:
     }
     let arts_root = env.ws.join(".rip").join("artifacts");
     let parked = env.ws.join(".rip").join("artifacts.parked");
-    if bundle_fail {
+    if inject_fail {
         std::fs::create_dir_all(env.ws.join(".rip")).ok();
         if arts_root.exists() {
             std::fs::rename(&arts_root, &parked).ok();
         }
         std::fs::write(&arts_root, b"not a directory").ok();
     }
+
+    // ---- a caller-supplied id: what std says about <blobs>.join(id) and the listing of the file system, BEFORE the call
+    let blobs_abs = blobs_dir(env);
+    let blob_count_before = std::fs::read_dir(&blobs_abs).map(|rd| rd.count()).unwrap_or(0);
+    let art_probe = art.as_ref().filter(|_| shaped).map(|id| {
+        let joined = blobs_abs.join(id);
+        let meta = std::fs::metadata(&joined);
+        let is_file = joined.is_file();
+        let exists = joined.exists();
+        let is_dir = joined.is_dir();
+        let read = std::fs::read(&joined).ok().map(|b| b.len() as u64);
+        // (realpath(3) resolves strings longer than PATH_MAX component by component: only asked when stat succeeds)
+        let under = if exists { std::fs::canonicalize(&joined).ok().map(|c| c.starts_with(&blobs_abs)) } else { None };
+        let _ = meta;
+        (fs_listing(env), is_file, exists, is_dir, read, under)
+    });
 
     // ---- the call
     let store = env.store.clone();
@@ -451,7 +685,7 @@ fn do_call(env: &mut Env, hs: &[Hdr], before: &[u8], kind: Kind, th: usize, sel:
         env.restart();
         out.dist.push("via_http_router".into());
     }
-    if bundle_fail {
+    if inject_fail {
         let _ = std::fs::remove_file(&arts_root);
         if parked.exists() {
             std::fs::rename(&parked, &arts_root).ok();
@@ -509,8 +743,15 @@ fn do_call(env: &mut Env, hs: &[Hdr], before: &[u8], kind: Kind, th: usize, sel:
             let summary_ok = match kind {
                 Kind::Branch => true,
                 // (a blank text is "summary given as text"; code that REFUSES it keeps the property, so no demand there)
-                Kind::Handoff(s) => matches!(s, Summary::Markdown | Summary::ArtifactExisting | Summary::BothExisting) && !bundle_fail && (md.is_none() || mdv == Md::Normal || mdv == Md::Long),
+                Kind::Handoff(s) => (matches!(s, Summary::Markdown) || (matches!(s, Summary::ArtifactExisting | Summary::BothExisting | Summary::ArtShape(IdShape::Blob) | Summary::BothShape(IdShape::Blob)) && art_exists)) && !bundle_fail && (md.is_none() || mdv == Md::Normal || mdv == Md::Long),
             };
+            // a refused caller-supplied id leaves nothing behind: no frame (above) and no new blob
+            if shaped && (err_code(e) == 7 || err_code(e) == 404) {
+                let n = std::fs::read_dir(&blobs_abs).map(|rd| rd.count()).unwrap_or(0);
+                if n != blob_count_before {
+                    viol!(format!("handoff refused the summary_artifact_id {:?} ({e}) but the artifact store changed ({blob_count_before} -> {n} entries)", art), "refused_handoff_wrote_artifact");
+                }
+            }
             if stale.is_none() && !truth.is_empty() && sel_ok && summary_ok {
                 viol!(format!("{kind:?} rejected a request that lies within the source thread (head {head}, from_seq {from_seq:?}, from_message_id {from_mid:?}): {e}"), "valid_request_rejected");
             }
@@ -593,8 +834,8 @@ fn do_call(env: &mut Env, hs: &[Hdr], before: &[u8], kind: Kind, th: usize, sel:
                             if ra != given {
                                 viol!(format!("handoff recorded artifact {ra}, caller gave {given}"), "handoff_artifact_differs");
                             }
-                            if !blobs_dir(env).join(ra).is_file() && rmd.is_none() {
-                                viol!(format!("handoff recorded summary_artifact_id {ra} that names no stored artifact and carries no markdown: the summary cannot be resolved"), "handoff_summary_unresolvable");
+                            if !blobs_dir(env).join(ra).exists() && rmd.is_none() {
+                                viol!(format!("handoff recorded summary_artifact_id {ra:?} that names no stored artifact and carries no markdown: the summary cannot be resolved"), "handoff_summary_unresolvable");
                             }
                         }
                         (Some(ra), Some(given_md), None) => {
@@ -626,11 +867,29 @@ fn do_call(env: &mut Env, hs: &[Hdr], before: &[u8], kind: Kind, th: usize, sel:
                     // invisible, long), the recorded artifact id is read back from the workspace store
                     if let Some(ra) = &rart {
                         out.dist.push("handoff_summary_read_back".into());
-                        match std::fs::read(blobs_dir(env).join(ra)) {
-                            Err(_) if check_art || art.is_none() => viol!(format!("handoff recorded summary_artifact_id {ra}: no such blob in the workspace artifact store"), "handoff_summary_unresolvable"),
-                            Err(_) => {}
-                            Ok(b) if b.is_empty() => viol!(format!("handoff recorded summary_artifact_id {ra}: the blob is empty"), "handoff_summary_blob_empty"),
-                            Ok(_) => {}
+                        let joined = blobs_dir(env).join(ra);
+                        let show: String = ra.chars().take(80).collect();
+                        match (std::fs::metadata(&joined), std::fs::read(&joined)) {
+                            // nothing there at all
+                            (Err(_), _) if check_art || art.is_none() => viol!(format!("handoff recorded summary_artifact_id {show:?}: no such blob in the workspace artifact store"), "handoff_summary_unresolvable"),
+                            (Err(_), _) => {}
+                            // something is there, but no summary can be read from it (a directory: "", ".", "..", a sub-directory name)
+                            (Ok(m), _) if !m.is_file() => viol!(
+                                format!("handoff accepted and recorded summary_artifact_id {show:?}, which resolves to {} ({}): no summary can be read from it{}", if m.is_dir() { "a DIRECTORY" } else { "something that is not a regular file" }, joined.display().to_string().chars().take(160).collect::<String>(), if rmd.is_none() { " and the frame carries no text either" } else { "" }),
+                                "handoff_summary_not_resolvable"
+                            ),
+                            (Ok(_), Err(e)) => viol!(format!("handoff recorded summary_artifact_id {show:?}: the file cannot be read back: {e}"), "handoff_summary_not_resolvable"),
+                            (Ok(_), Ok(b)) if b.is_empty() => viol!(format!("handoff recorded summary_artifact_id {show:?}: the blob is empty"), "handoff_summary_blob_empty"),
+                            (Ok(_), Ok(_)) => {
+                                // ... and it is a blob OF THE STORE: the file lies under .rip/artifacts/blobs
+                                let inside = std::fs::canonicalize(&joined).map(|c| c.starts_with(blobs_dir(env))).unwrap_or(false);
+                                if !inside {
+                                    viol!(
+                                        format!("handoff accepted and recorded summary_artifact_id {show:?}, which resolves to the regular file {} OUTSIDE the workspace artifact store: the id names no artifact", std::fs::canonicalize(&joined).map(|c| c.display().to_string()).unwrap_or_default()),
+                                        "handoff_summary_outside_artifact_store"
+                                    );
+                                }
+                            }
                         }
                     }
                     if rmd != md {
@@ -715,6 +974,27 @@ fn do_call(env: &mut Env, hs: &[Hdr], before: &[u8], kind: Kind, th: usize, sel:
         coq_list_n(&exp)
     );
     let _ = ops;
+    if let (Some((listing, is_file, exists, is_dir, read, under)), Some(id)) = (&art_probe, &art) {
+        // did the call pass the artifact test?  (error order: summary, artifact, selectors, parent, cut).  Through the
+        // router 404 also stands for an unknown thread / message: those calls are not compared.
+        let passed = match &res {
+            Ok(_) => Some(true),
+            Err(e) => match err_code(e) {
+                7 => Some(false),
+                404 => if !truth.is_empty() && !matches!(sel, Sel::Msg(_)) { Some(false) } else { None },
+                5 | 99 => None,
+                _ => Some(true),
+            },
+        };
+        if let Some(passed) = passed {
+            use std::os::unix::ffi::OsStrExt;
+            let exp = [passed as u64, *is_file as u64, *exists as u64, *is_dir as u64, read.map(|n| 1 + n).unwrap_or(0), under.map(|u| 1 + u as u64).unwrap_or(0)];
+            let fs_coq = coq_list(listing, |(p, n)| format!("({}, {})", coq_list(p, |c| coq_bytes(c)), match n { None => "Dir".to_string(), Some(len) => format!("(File [{len}])") }));
+            let term = format!("{{| a_fs := {}; a_base := {}; a_id := {}; a_guard := 0; a_expect := {} |}}", fs_coq, coq_bytes(blobs_abs.as_os_str().as_bytes()), coq_bytes(id.as_bytes()), coq_list_n(&exp));
+            let shown: String = id.chars().take(120).collect();
+            out.art_terms.push((term, json!({"summary_artifact_id": shown, "id_len": id.len(), "call": format!("{kind:?} http={http}"), "observed [passed, is_file, exists, is_dir, read, under]": exp.to_vec(), "result": match &res { Ok(_) => "ok".to_string(), Err(e) => e.clone() }})));
+        }
+    }
     let desc = json!({
         "call": format!("{kind:?} th={th} sel={sel:?} stale={stale:?} bundle_fail={bundle_fail} md={mdv:?} http={http}"),
         "parent_frames": truth.iter().map(|h| format!("{}:{}", h.seq, ETYPES[h.code as usize])).collect::<Vec<_>>(),
@@ -735,7 +1015,18 @@ fn do_call(env: &mut Env, hs: &[Hdr], before: &[u8], kind: Kind, th: usize, sel:
         }
     ));
     if let Kind::Handoff(s) = kind {
+        match s {
+            Summary::ArtShape(sh) | Summary::BothShape(sh) => {
+                out.dist.push(format!("summary={}", if matches!(s, Summary::ArtShape(_)) { "ArtShape" } else { "BothShape" }));
+                out.dist.push(format!("artifact_id_shape={sh:?}"));
+                out.dist.push(format!("artifact_id_{}", if res.is_ok() { "accepted" } else { "refused" }));
+                out.dist.push(format!("artifact_store={}", if blobs_abs.is_dir() { if blobs_abs.join("sub").is_dir() { "populated_with_subdir" } else if blob_count_before == 0 { "empty_blobs_dir" } else { "populated" } } else if blobs_abs.exists() { "blobs_is_a_file" } else { "fresh" }));
+            }
+            _ => out.dist.push(format!("summary={s:?}")),
+        }
+        if false {
         out.dist.push(format!("summary={s:?}"));
+        }
         if md.is_some() {
             out.dist.push(format!("summary_text={mdv:?}"));
             if md_blank(mdv) && res.is_ok() {
@@ -781,7 +1072,13 @@ fn gen_call(r: &mut Rng, threads: usize, focus: usize) -> Op {
     let kind = if r.chance(1, 2) {
         Kind::Branch
     } else {
-        Kind::Handoff(*r.pick(&[Summary::Markdown, Summary::Markdown, Summary::Markdown, Summary::ArtifactExisting, Summary::ArtifactUnknown, Summary::BothExisting, Summary::BothUnknown, Summary::Neither]))
+        // one handoff in four carries a caller-supplied artifact id of some SHAPE (half of them next to a text)
+        if r.chance(1, 4) {
+            let sh = *r.pick(&SHAPES_ALL);
+            Kind::Handoff(if r.chance(1, 2) { Summary::ArtShape(sh) } else { Summary::BothShape(sh) })
+        } else {
+            Kind::Handoff(*r.pick(&[Summary::Markdown, Summary::Markdown, Summary::Markdown, Summary::ArtifactExisting, Summary::ArtifactUnknown, Summary::BothExisting, Summary::BothUnknown, Summary::Neither]))
+        }
     };
     let th = if r.chance(1, 25) { 1000 } else if r.chance(1, 2) { focus } else { r.below(threads as u64) as usize };
     let stale = if r.chance(1, 10) { Some(r.range(1, 3) as usize) } else { None };
@@ -816,7 +1113,8 @@ fn gen_case(r: &mut Rng, long: bool) -> Vec<Op> {
             15 => Op::Checkpoint { th },
             16 => Op::Fault { th, x: *r.pick(&[Fault::Delete, Fault::TearTail, Fault::Empty]) },
             17 => Op::Restart,
-            18..=22 => Op::Msg { th },
+            18 => Op::StoreFx(*r.pick(&[StoreFx::EmptyBlobsDir, StoreFx::Compiled, StoreFx::Furnish, StoreFx::Furnish])),
+            19..=22 => Op::Msg { th },
             _ => gen_call(r, threads, focus),
         };
         ops.push(op);
@@ -825,6 +1123,19 @@ fn gen_case(r: &mut Rng, long: bool) -> Vec<Op> {
         ops.push(gen_call(r, threads, focus));
     }
     ops
+}
+
+/// [two messages; the ops that set the store up; one handoff per shape (and one more next to a text when `both`)]
+fn shape_history(setup: &[Op], shapes: &[IdShape], both: bool, http: bool) -> Vec<Op> {
+    let mut v = vec![Op::Msg { th: 0 }, Op::Msg { th: 0 }];
+    v.extend(setup.iter().cloned());
+    for sh in shapes {
+        v.push(Op::Call { kind: Kind::Handoff(Summary::ArtShape(*sh)), th: 0, sel: Sel::None, stale: None, bundle_fail: false, md: Md::Normal, http });
+        if both {
+            v.push(Op::Call { kind: Kind::Handoff(Summary::BothShape(*sh)), th: 0, sel: Sel::Seq(SeqSel::Mid(1)), stale: None, bundle_fail: false, md: Md::Normal, http });
+        }
+    }
+    v
 }
 
 /// fixed cases that always run first (documented in corpus/C10/*.json)
@@ -901,6 +1212,22 @@ fn corpus() -> Vec<Vec<Op>> {
             v.push(Op::Call { kind: Kind::Handoff(Summary::Markdown), th: 0, sel: Sel::None, stale: None, bundle_fail: true, md: Md::Empty, http: false });
             v
         },
+        // ---- caller-supplied summary_artifact_id: every shape of id x every state of the artifact store ----
+        // fresh store (no .rip/artifacts/blobs at all)
+        shape_history(&[], &SHAPES_CORE, false, false),
+        // blobs/ exists and is empty
+        shape_history(&[Op::StoreFx(StoreFx::EmptyBlobsDir)], &SHAPES_CORE, false, false),
+        // populated by an earlier handoff (the bundle ripd wrote)
+        shape_history(&[call(Kind::Handoff(Summary::Markdown), Sel::None)], &SHAPES_ALL, false, false),
+        // populated by a compaction checkpoint (rip.compaction_summary.v1)
+        shape_history(&[Op::Checkpoint { th: 0 }], &SHAPES_CORE, false, false),
+        // populated by the context compiler, a sub-directory inside blobs/, a leftover .tmp, files next to blobs/: every
+        // shape without and with a summary text
+        shape_history(&[Op::StoreFx(StoreFx::Compiled), Op::StoreFx(StoreFx::Furnish)], &SHAPES_ALL, true, false),
+        // the same store, through POST /threads/{id}/handoff
+        shape_history(&[call(Kind::Handoff(Summary::Markdown), Sel::None), Op::StoreFx(StoreFx::Furnish)], &SHAPES_ALL, false, true),
+        // blobs is a regular file
+        shape_history(&[Op::StoreFx(StoreFx::BlobsIsFile)], &SHAPES_CORE, false, false),
         // parent with only its creation frame; unknown parent; branch of a branch; handoff of a branch
         vec![
             call(Kind::Branch, Sel::None),
@@ -920,13 +1247,15 @@ fn corpus() -> Vec<Vec<Op>> {
 fn main() {
     let a = parse_args();
     let mut res = RunResult::new("C10", &a);
-    res.rule = "case = one thread.branch / thread.handoff call at the end of a history of ContinuityStore calls (messages, run_spawned / run_ended naming known, unknown and empty message ids, tool side effects, checkpoints, earlier branches and handoffs - parents that are themselves children -, sidecar faults delete / torn tail / empty / rolled back, restarts); selector classes none, from_seq 0 / mid / head / head+1.. / u64::MAX, from_message_id first / last / middle / unknown / named only by run frames / id of the created frame / id of a run frame / message of another thread / empty string, both; summary classes markdown, artifact id existing / unknown, both, neither, artifact store unwritable; non-trivial = a call on a parent with >= 3 frames and at least one message; distinct by hash of (history, call)".into();
+    res.rule = "case = one thread.branch / thread.handoff call at the end of a history of ContinuityStore calls (messages, run_spawned / run_ended naming known, unknown and empty message ids, tool side effects, checkpoints, earlier branches and handoffs - parents that are themselves children -, sidecar faults delete / torn tail / empty / rolled back, restarts); selector classes none, from_seq 0 / mid / head / head+1.. / u64::MAX, from_message_id first / last / middle / unknown / named only by run frames / id of the created frame / id of a run frame / message of another thread / empty string, both; summary classes markdown, artifact id existing / unknown, both, neither, artifact store unwritable; caller-supplied artifact ids of 43 shapes (empty, ., .., ./, blank, blob name, blob/ blob/. blob/.., ./blob, dotted paths below / at / above PATH_MAX, blob.tmp, NUL, other case, unknown, 255 / 256 / 5000 bytes, sub-directory name, sub/, sub/inner, sub/missing, sub/../blob, nosuch/../blob, a/b, backslash, ../blobs, ../blobs/blob, ../outside.txt, ../x, ../../../../data/events.jsonl, absolute blob / blobs dir / workspace file / missing / root) on stores fresh / empty blobs dir / populated by a handoff, a compaction checkpoint, a compiled context bundle / with a sub-directory and files next to blobs / blobs a regular file, directly and through the router, without and with a text; non-trivial = a call on a parent with >= 3 frames and at least one message; distinct by hash of (history, call)".into();
     let check_art = a.extra.get("check-art").map(|v| v == "1").unwrap_or(CHECK_ART);
     let n = if a.thorough() { 3600 } else { 100 };
     let mut r = Rng::new(a.seed);
     let mut w = CaseWriter::new(&a.out, "Model.Frames Model.Log Model.Lineage", "check_case", "model_obs", 40);
     // calls made through the HTTP router: the result is compared as the response status (check_case_http)
     let mut wh = CaseWriter::new(&a.out.join("http"), "Model.Frames Model.Log Model.Lineage", "check_case_http", "model_obs_http", 40).with_base(1_000_000);
+    // caller-supplied artifact ids: the guard over the file-system listing (Model/ArtGuard.v check_case_art)
+    let mut wa = CaseWriter::new(&a.out.join("art"), "Base.Fs Model.ArtGuard", "check_case_art", "model_obs_art", 15).with_base(2_000_000);
     let mut distinct = Distinct::default();
     let mut all: Vec<Vec<Op>> = corpus();
     for i in 0..n {
@@ -958,6 +1287,15 @@ fn main() {
                     });
                     res.oracle_violations.push(OracleViolation { case_id: i as i64, what: what.clone(), class: class.clone(), replay: json!(shrunk.iter().map(|o| format!("{o:?}")).collect::<Vec<_>>()) });
                 }
+                for (term, desc) in o.art_terms.iter() {
+                    res.bump("artifact_guard_cases");
+                    if !a.oracle_only() {
+                        let id = wa.push(term.clone());
+                        if res.case_index.len() < 4000 {
+                            res.case_index.insert(id.to_string(), json!({"history": ops.iter().map(|o| format!("{o:?}")).collect::<Vec<_>>(), "artifact_guard_case": desc}));
+                        }
+                    }
+                }
                 for (k, (term, desc)) in o.terms.iter().enumerate() {
                     if !a.oracle_only() {
                         let id = if desc["http"] == json!(true) { wh.push(term.clone()) } else { w.push(term.clone()) };
@@ -979,8 +1317,9 @@ fn main() {
     }
     w.flush();
     wh.flush();
+    wa.flush();
     res.distinct_nontrivial = distinct.count();
-    res.case_files = w.files.iter().chain(wh.files.iter()).map(|p| p.display().to_string()).collect();
+    res.case_files = w.files.iter().chain(wh.files.iter()).chain(wa.files.iter()).map(|p| p.display().to_string()).collect();
     res.write(&a.out);
     println!("c10: {} calls in {} histories, {} oracle checks, {} oracle violations, {} panics", res.evaluations, all.len(), res.oracle_checks, res.oracle_violations.len(), res.impl_panics);
 }
